@@ -678,6 +678,306 @@ Proof.
     replace (Z.to_nat i) with (N.to_nat (Z.to_N i)) by lia. exact Hc'.
 Qed.
 
+Local Open Scope nat_scope.
+(* whole 32-byte chunks followed by a short tail *)
+Lemma split32 : forall f (D : bytes), length D <= f ->
+  exists cs lastq, D = concat cs ++ lastq /\ Forall (fun c => length c = 32) cs /\ length lastq < 32.
+Proof.
+  induction f as [|f IH]; intros D Hf.
+  - destruct D; [|cbn in Hf; lia]. exists [], []. cbn. repeat split; [constructor|lia].
+  - destruct (Nat.lt_ge_cases (length D) 32) as [Hlt|Hge].
+    + exists [], D. cbn. repeat split; [constructor|exact Hlt].
+    + destruct (IH (skipn 32 D)) as (cs & lastq & E & Hall & Hl); [rewrite skipn_length; lia|].
+      exists (firstn 32 D :: cs), lastq. cbn [concat]. rewrite <- app_assoc, <- E, firstn_skipn. repeat split; auto.
+      constructor; [rewrite firstn_length; lia|exact Hall].
+Qed.
+
+Lemma chunks_split cs lastq : Forall (fun c => length c = 32) cs -> length lastq < 32 ->
+  chunks (concat cs ++ lastq) = cs ++ (match lastq with [] => [] | _ => [pad32 lastq] end).
+Proof. intros Hall Hl. apply (chunks_app_full H); [exact Hall|lia]. Qed.
+
+Lemma skipn_repeat' {A} (a : A) j k : skipn j (repeat a k) = repeat a (k - j).
+Proof. revert k; induction j as [|j IH]; intros [|k]; cbn; auto. Qed.
+
+(* appending s bytes after a tail of j pieces of s bytes inside one chunk *)
+Lemma splice_append (s j : nat) (lastq eb : bytes) : length lastq = s * j -> length eb = s -> s * (j + 1) <= 32 ->
+  splice (pad32 lastq) (N.of_nat j) eb = pad32 (lastq ++ eb).
+Proof.
+  intros Hl Heb Hb. unfold splice. rewrite Nat2N.id, Heb. unfold pad32, pad_to, zero_bytes.
+  rewrite firstn_app, <- Hl, firstn_all, Nat.sub_diag. cbn [firstn]. rewrite app_nil_r.
+  rewrite skipn_app. rewrite (skipn_all2 lastq) by lia. cbn [app].
+  rewrite skipn_repeat'. rewrite app_length, Heb, <- app_assoc. f_equal. f_equal. f_equal. lia.
+Qed.
+(* clearing the last piece of a tail *)
+Lemma splice_clear (s j : nat) (lastq eb : bytes) : length lastq = s * j -> length eb = s -> s * (j + 1) <= 32 ->
+  splice (pad32 (lastq ++ eb)) (N.of_nat j) (zero_bytes s) = pad32 lastq.
+Proof.
+  intros Hl Heb Hb. unfold splice. rewrite Nat2N.id.
+  assert (length (zero_bytes s) = s) as -> by (unfold zero_bytes; apply repeat_length).
+  unfold pad32, pad_to, zero_bytes.
+  rewrite <- (app_assoc lastq eb). rewrite firstn_app, <- Hl, firstn_all, Nat.sub_diag. cbn [firstn]. rewrite app_nil_r.
+  rewrite skipn_app. rewrite (skipn_all2 lastq) by lia. cbn [app].
+  replace (s * (j + 1) - length lastq) with s by lia.
+  rewrite skipn_app. rewrite (skipn_all2 eb) by lia. cbn [app]. rewrite Heb, Nat.sub_diag. cbn [skipn].
+  rewrite app_length, Heb. f_equal. rewrite <- repeat_app. f_equal. lia.
+Qed.
+Local Open Scope N_scope.
+
+(* the data of a packed sequence as whole chunks plus the tail of (len mod epc) elements *)
+Lemma packed_layout e s (vs : list val) : wf_ty e = true -> basic_size e = Some s -> forallb (wf e) vs = true ->
+  exists cs lastq, concat (map (ser e) vs) = concat cs ++ lastq /\ Forall (fun c => length c = 32%nat) cs /\
+    length cs = N.to_nat (lenN vs / elems_per_chunk s) /\
+    length lastq = (N.to_nat s * N.to_nat (lenN vs mod elems_per_chunk s))%nat /\
+    (N.to_nat s * (N.to_nat (lenN vs mod elems_per_chunk s) + 1) <= 32)%nat.
+Proof.
+  intros Hw E Hall. pose proof (basic_size_ok e s Hw E) as Hs.
+  set (D := concat (map (ser e) vs)). pose proof (concat_ser_length e s vs Hw E Hall) as HD. fold D in HD.
+  destruct (split32 (length D) D (le_n _)) as (cs & lastq & ED & Hcs & Hlq).
+  exists cs, lastq. split; [exact ED|]. split; [exact Hcs|].
+  pose proof (f_equal (@length byte) ED) as Hlen. rewrite app_length, (concat_uniform_length 32 cs Hcs), HD in Hlen.
+  set (epc := elems_per_chunk s).
+  assert (N.to_nat s * N.to_nat epc = 32 /\ 0 < N.to_nat epc /\ 0 < N.to_nat s)%nat as (Hse & He0 & Hs0)
+    by (unfold epc, elems_per_chunk; destruct Hs as [ -> | [ -> | [ -> | [ -> | [ -> | -> ]]]]]; cbn; lia).
+  pose proof (N.div_mod (lenN vs) epc ltac:(lia)) as Hdm. pose proof (N.mod_lt (lenN vs) epc ltac:(lia)) as Hml.
+  set (q := lenN vs / epc) in *. set (r := lenN vs mod epc) in *.
+  assert (length vs = N.to_nat epc * N.to_nat q + N.to_nat r)%nat as Hv by (unfold lenN in Hdm; lia).
+  assert (N.to_nat s * N.to_nat r < 32)%nat as Hr32 by nia.
+  assert (length cs = N.to_nat q /\ length lastq = N.to_nat s * N.to_nat r)%nat as [H1 H2].
+  { assert (length cs * 32 + length lastq = 32 * N.to_nat q + N.to_nat s * N.to_nat r)%nat as Heq by (rewrite Hv in Hlen; nia).
+    split; nia. }
+  split; [exact H1|]. split; [exact H2|]. nia.
+Qed.
+
+Theorem packed_list_append e l s vs n x m : wf_ty (TList e l) = true -> basic_size e = Some s ->
+  wf (TList e l) (VSeq vs) = true -> Repr (TList e l) (VSeq vs) n -> lenN vs < l -> wf e x = true -> Repr e x m ->
+  exists n', list_append H src (TList e l) n m = Ok n' /\ Repr (TList e l) (VSeq (vs ++ [x])) n'.
+Proof.
+  intros Hty E Hwf Hr Hlt Hx Hm. cbn [wf] in Hwf. apply andb_true_iff in Hwf as [Hn Hall]. apply N.leb_le in Hn.
+  pose proof Hty as Hty0. cbn [wf_ty] in Hty. apply andb_true_iff in Hty as [Hte Hlb]. apply N.ltb_lt in Hlb. unfold LIMIT_BOUND in Hlb.
+  cbn [ReprProofs.Repr chunk_data] in Hr. destruct Hr as (c & -> & Hr). rewrite E in Hr.
+  pose proof (basic_size_ok e s Hte E) as Hs.
+  unfold list_append. rewrite (mixin_len_node H src c (lenN vs)) by lia. cbn [bind].
+  assert ((l <=? lenN vs) = false) as -> by (apply N.leb_gt; exact Hlt). rewrite E.
+  assert (tree_depth (TList e l) = S (contents_depth (TList e l))) as -> by reflexivity.
+  set (cd := contents_depth (TList e l)) in *.
+  rewrite (basic_repr_bytes e s x m Hte E Hx Hm).
+  destruct (packed_layout e s vs Hte E Hall) as (cs & lastq & ED & Hcs & Hlcs & Hllq & Hfit).
+  set (D := concat (map (ser e) vs)) in *. set (epc := elems_per_chunk s) in *.
+  pose proof (ser_basic_length e s x Hte E Hx) as Hxl.
+  assert (concat (map (ser e) (vs ++ [x])) = D ++ ser e x) as ED' by (rewrite map_app, concat_app; cbn [map concat]; now rewrite app_nil_r).
+  assert (lenN (vs ++ [x]) = lenN vs + 1) as Elen by (unfold lenN; rewrite app_length; cbn [length]; lia).
+  (* capacity *)
+  assert (length (chunks (D ++ ser e x)) <= 2 ^ cd)%nat as Hcap.
+  { rewrite chunks_length, <- ED', (concat_ser_length e s (vs ++ [x]) Hte E) by (rewrite forallb_app; cbn [forallb]; now rewrite Hall, Hx).
+    unfold cd. cbn [contents_depth]. unfold to_chunk_length. rewrite E. rewrite (chunk_len_eq s l Hs).
+    pose proof (get_depth_fits ((l * s + 31) / 32)). rewrite app_length. cbn [length]. unfold lenN in *. nia. }
+  destruct (lenN vs mod epc =? 0) eqn:Er.
+  - (* a new chunk *)
+    apply N.eqb_eq in Er. rewrite Er in Hllq. rewrite Nat.mul_0_r in Hllq. destruct lastq; [|discriminate]. rewrite app_nil_r in ED.
+    assert (chunks D = cs) as Ech by (rewrite ED; rewrite <- (app_nil_r (concat cs)); rewrite (chunks_split cs [] Hcs ltac:(cbn; lia)); now rewrite app_nil_r).
+    rewrite Ech in Hr.
+    assert (chunks (D ++ ser e x) = cs ++ [pad32 (ser e x)]) as Ech'.
+    { rewrite ED. rewrite (chunks_app_full H cs (ser e x) Hcs) by lia. destruct (ser e x) eqn:Es; [cbn in Hxl; lia|reflexivity]. }
+    assert (splice zero32 0 (ser e x) = pad32 (ser e x)) as Esp.
+    { change zero32 with (pad32 []). apply (splice_append (N.to_nat s) 0 [] (ser e x)); [cbn; lia|exact Hxl|lia]. }
+    rewrite Esp.
+    (* the expanding write at position |cs| *)
+    assert (lenN vs / epc = lenN (map RootN cs)) as Eq by (unfold lenN, bytes in *; rewrite map_length; lia).
+    pose proof (CRep_len H _ _ _ Hr) as Hcl. pose proof (pow_nat_N cd) as Hp.
+    assert (lenN (map RootN cs) < 2 ^ N.of_nat cd) as Hq1.
+    { rewrite Ech' in Hcap. rewrite app_length in Hcap. cbn [length] in Hcap. unfold lenN, bytes in *. rewrite map_length. lia. }
+    assert (lenN (map RootN cs) < 2 ^ N.of_nat (S cd)) as Hq2 by (rewrite Nat2N.inj_succ, N.pow_succ_r'; lia).
+    unfold setter_i. rewrite Eq, (to_gindex_ok _ (S cd) Hq2). cbn [bind]. unfold setter_g. rewrite (path_of_to_gindex (S cd) _ Hq2).
+    cbn [be_bits]. rewrite (testbit_top _ cd Hq2). assert ((2 ^ N.of_nat cd <=? lenN (map RootN cs)) = false) as -> by (apply N.leb_gt; exact Hq1).
+    rewrite setter_unfold. cbn [Tree.setter_below children].
+    destruct (CRep_append H src _ _ _ Hr (RootN (pad32 (ser e x)))) as (c' & Hs' & Hc'); [unfold lenN in Hq1; lia|].
+    rewrite Hs'. cbn [rebuild bind]. unfold rebind_right. cbn [children].
+    eexists; split; [reflexivity|]. cbn [ReprProofs.Repr chunk_data]. exists c'. split; [now rewrite Elen|]. rewrite E, ED', Ech', map_app. exact Hc'.
+  - (* into the partial last chunk *)
+    apply N.eqb_neq in Er.
+    assert (lastq <> []) as Hlqne by (intros ->; cbn in Hllq; pose proof Hs; nia).
+    assert (chunks D = cs ++ [pad32 lastq]) as Ech.
+    { rewrite ED. rewrite (chunks_app_full H cs lastq Hcs) by lia. destruct lastq; [congruence|reflexivity]. }
+    rewrite Ech in Hr.
+    assert (chunks (D ++ ser e x) = cs ++ [pad32 (lastq ++ ser e x)]) as Ech'.
+    { rewrite ED, <- app_assoc. rewrite (chunks_app_full H cs (lastq ++ ser e x) Hcs) by (rewrite app_length; lia).
+      destruct (lastq ++ ser e x) eqn:Es; [destruct lastq; [congruence|discriminate]|reflexivity]. }
+    set (ns := map RootN (cs ++ [pad32 lastq])) in *.
+    assert (lenN vs / epc < lenN ns) as Hq by (unfold ns, lenN, bytes in *; rewrite map_length, app_length; cbn [length]; lia).
+    destruct (crep_setter_i_list cd c (len_node (lenN vs)) ns (lenN vs / epc) (RootN zero32) Hr Hq) as (pr & Hpr & _). rewrite Hpr. cbn [bind].
+    rewrite (getter_i_crep_list H src cd c _ ns (lenN vs / epc) (RootN zero32) Hr Hq). cbn [bind].
+    assert (nth (N.to_nat (lenN vs / epc)) ns (RootN zero32) = RootN (pad32 lastq)) as ->.
+    { unfold ns. rewrite map_app. cbn [map]. unfold bytes in *. rewrite app_nth2 by (rewrite map_length; lia). rewrite map_length, <- Hlcs, Nat.sub_diag. reflexivity. }
+    cbn [Tree.root].
+    rewrite <- (N2Nat.id (lenN vs mod epc)). rewrite (splice_append (N.to_nat s) _ lastq (ser e x) Hllq Hxl Hfit).
+    destruct (crep_setter_i_list cd c (len_node (lenN vs)) ns (lenN vs / epc) (RootN (pad32 (lastq ++ ser e x))) Hr Hq) as (c' & Hs' & Hc'). rewrite Hs'.
+    cbn [bind]. unfold rebind_right. cbn [children].
+    eexists; split; [reflexivity|]. cbn [ReprProofs.Repr chunk_data]. exists c'. split; [now rewrite Elen|]. rewrite E, ED', Ech'.
+    unfold ns in Hc'. rewrite map_app in Hc'. cbn [map] in Hc'. unfold bytes in *. rewrite upd_app2 in Hc' by (rewrite map_length; lia).
+    rewrite map_length, <- Hlcs, Nat.sub_diag in Hc'. cbn [upd] in Hc'. rewrite map_app. exact Hc'.
+Qed.
+(* the same accessors with the generalized index already computed *)
+Lemma list_setter_g d c lenn ns q v : CRep d c ns -> q < lenN ns ->
+  exists c', setter_g H src false (PairN c lenn) (2 ^ N.of_nat (S d) + q) v = Ok (PairN c' lenn) /\ CRep d c' (upd (N.to_nat q) v ns).
+Proof.
+  intros Hc Hq. pose proof (CRep_len H _ _ _ Hc) as Hl. pose proof (pow_nat_N d) as Hp.
+  assert (q < 2 ^ N.of_nat d) as Hq1 by (unfold lenN in Hq; lia).
+  assert (q < 2 ^ N.of_nat (S d)) as Hq2 by (rewrite Nat2N.inj_succ, N.pow_succ_r'; lia).
+  unfold setter_g. rewrite (path_of_to_gindex (S d) q Hq2). cbn [be_bits]. rewrite (testbit_top q d Hq2).
+  assert ((2 ^ N.of_nat d <=? q) = false) as -> by (apply N.leb_gt; exact Hq1).
+  rewrite setter_unfold. cbn [Tree.setter_below children].
+  destruct (CRep_set H src false _ _ _ Hc q v Hq) as (c' & Hs & Hc'). rewrite Hs. cbn [rebuild]. eauto.
+Qed.
+Lemma list_getter_g d c lenn ns q dflt : CRep d c ns -> q < lenN ns ->
+  getter_g src (PairN c lenn) (2 ^ N.of_nat (S d) + q) = Ok (nth (N.to_nat q) ns dflt).
+Proof.
+  intros Hc Hq. pose proof (CRep_len H _ _ _ Hc) as Hl. pose proof (pow_nat_N d) as Hp.
+  assert (q < 2 ^ N.of_nat d) as Hq1 by (unfold lenN in Hq; lia).
+  assert (q < 2 ^ N.of_nat (S d)) as Hq2 by (rewrite Nat2N.inj_succ, N.pow_succ_r'; lia).
+  unfold getter_g. rewrite (path_of_to_gindex (S d) q Hq2). cbn [be_bits]. rewrite (testbit_top q d Hq2).
+  assert ((2 ^ N.of_nat d <=? q) = false) as -> by (apply N.leb_gt; exact Hq1).
+  cbn [Tree.getter children]. now apply (CRep_get H src _ _ _ Hc).
+Qed.
+
+Lemma splice_zero_clear s : (N.to_nat s <= 32)%nat -> splice zero32 0 (zero_bytes (N.to_nat s)) = zero32.
+Proof.
+  intros Hs. unfold splice, zero32, zero_bytes. rewrite repeat_length. cbn [N.to_nat Nat.mul firstn app].
+  rewrite Nat.mul_0_r. cbn [firstn app]. rewrite Nat.mul_1_r, skipn_repeat', <- repeat_app. f_equal. lia.
+Qed.
+
+Theorem packed_list_pop e l s vs n : wf_ty (TList e l) = true -> basic_size e = Some s ->
+  wf (TList e l) (VSeq vs) = true -> Repr (TList e l) (VSeq vs) n -> vs <> [] ->
+  exists n', list_pop H src (TList e l) n = Ok n' /\ Repr (TList e l) (VSeq (removelast vs)) n'.
+Proof.
+  intros Hty E Hwf Hr Hne. cbn [wf] in Hwf. apply andb_true_iff in Hwf as [Hn Hall]. apply N.leb_le in Hn.
+  cbn [wf_ty] in Hty. apply andb_true_iff in Hty as [Hte Hlb]. apply N.ltb_lt in Hlb. unfold LIMIT_BOUND in Hlb.
+  cbn [ReprProofs.Repr chunk_data] in Hr. destruct Hr as (c & -> & Hr). rewrite E in Hr.
+  pose proof (basic_size_ok e s Hte E) as Hs.
+  destruct (nil_or_last vs) as [->|(vs' & xl & ->)]; [congruence|]. clear Hne. rewrite removelast_last.
+  rewrite forallb_app in Hall. apply andb_true_iff in Hall as [Hall' Hxl]. cbn [forallb] in Hxl. rewrite andb_true_r in Hxl.
+  assert (lenN (vs' ++ [xl]) = lenN vs' + 1) as Elen by (unfold lenN; rewrite app_length; cbn [length]; lia).
+  unfold list_pop. rewrite (mixin_len_node H src c _) by lia. cbn [bind]. rewrite Elen.
+  assert ((lenN vs' + 1 =? 0) = false) as -> by (apply N.eqb_neq; lia). rewrite E.
+  replace (lenN vs' + 1 - 1) with (lenN vs') by lia.
+  assert (tree_depth (TList e l) = S (contents_depth (TList e l))) as -> by reflexivity.
+  set (cd := contents_depth (TList e l)) in *. set (epc := elems_per_chunk s) in *.
+  destruct (packed_layout e s vs' Hte E Hall') as (cs & lastq & ED & Hcs & Hlcs & Hllq & Hfit). fold epc in Hlcs, Hllq, Hfit.
+  pose proof (ser_basic_length e s xl Hte E Hxl) as Hxll.
+  assert (concat (map (ser e) (vs' ++ [xl])) = concat cs ++ (lastq ++ ser e xl)) as ED'.
+  { rewrite map_app, concat_app. cbn [map concat]. rewrite app_nil_r, ED, <- app_assoc. reflexivity. }
+  rewrite ED' in Hr.
+  assert (chunks (concat cs ++ lastq ++ ser e xl) = cs ++ [pad32 (lastq ++ ser e xl)]) as Ech.
+  { rewrite (chunks_app_full H cs (lastq ++ ser e xl) Hcs) by (rewrite app_length; lia).
+    destruct (lastq ++ ser e xl) eqn:Es; [apply (f_equal (@length byte)) in Es; rewrite app_length in Es; cbn in Es; lia|reflexivity]. }
+  rewrite Ech in Hr. set (ns := map RootN (cs ++ [pad32 (lastq ++ ser e xl)])) in *.
+  set (q := lenN vs' / epc) in *.
+  assert (lenN ns = q + 1) as Hlns by (unfold ns, lenN, bytes in *; rewrite map_length, app_length; cbn [length]; lia).
+  pose proof (CRep_len H _ _ _ Hr) as Hcl. pose proof (pow_nat_N cd) as Hp.
+  assert (q < 2 ^ N.of_nat cd) as Hq1 by (unfold lenN in *; lia).
+  assert (q < 2 ^ N.of_nat (S cd)) as Hq2 by (rewrite Nat2N.inj_succ, N.pow_succ_r'; lia).
+  rewrite (to_gindex_ok q (S cd) Hq2). cbn [bind].
+  destruct (lenN vs' mod epc =? 0) eqn:Er.
+  - (* the chunk held only this element *)
+    apply N.eqb_eq in Er. rewrite Er in Hllq. rewrite Nat.mul_0_r in Hllq. destruct lastq; [|discriminate]. rewrite app_nil_r in ED.
+    rewrite Er. cbn [N.eqb bind Tree.root Tree.zero_node Tree.zero_hash].
+    rewrite (splice_zero_clear s) by (destruct Hs as [ -> | [ -> | [ -> | [ -> | [ -> | -> ]]]]]; cbn; lia).
+    destruct (list_setter_g cd c (len_node (lenN vs' + 1)) ns q (RootN zero32) Hr ltac:(lia)) as (c1 & Hs1 & Hc1).
+    change (RootN zero32) with (zero_node H 0) in *. rewrite Hs1. cbn [bind].
+    assert (upd (N.to_nat q) (zero_node H 0) ns = map RootN cs ++ [zero_node H 0]) as Eupd.
+    { unfold ns. rewrite map_app. cbn [map]. unfold bytes in *. rewrite upd_app2 by (rewrite map_length; lia). rewrite map_length, <- Hlcs, Nat.sub_diag. reflexivity. }
+    rewrite Eupd in Hc1. pose proof (CRep_drop_zero _ _ _ Hc1 _ eq_refl) as Hc1'.
+    assert (lenN (map RootN cs) = q) as Hlen' by (unfold lenN, bytes in *; rewrite map_length; lia).
+    assert (exists c2, (if N.even (2 ^ N.of_nat (S cd) + q) && true then summarize_up H src (PairN c1 (len_node (lenN vs' + 1))) (2 ^ N.of_nat (S cd) + q)
+                        else Ok (PairN c1 (len_node (lenN vs' + 1)))) = Ok (PairN c2 (len_node (lenN vs' + 1))) /\ CRep cd c2 (map RootN cs)) as (c2 & Hsum & Hc2).
+    { rewrite andb_true_r. destruct (N.even (2 ^ N.of_nat (S cd) + q)); [|eauto].
+      unfold summarize_up. destruct (climb_exists (N.size_nat (2 ^ N.of_nat (S cd) + q)) cd q Hq1) as (k & Hk & Hmod & Hcl'). rewrite Hcl'.
+      apply (summarize_list_backing cd c1 _ (map RootN cs) k q Hc1' Hlen' Hq1 Hk Hmod).
+      (* the cleared leaf is reachable *)
+      exists (zero_node H 0).
+      assert (q < lenN (map RootN cs ++ [zero_node H 0])) as Hql by (rewrite lenN_app, Hlen'; unfold lenN; cbn [length]; clear; lia).
+      rewrite (CRep_get H src _ _ _ Hc1 q (RootN zero32) Hql).
+      assert (length (map RootN cs) = N.to_nat q) as Hlq' by (clear - Hlen'; unfold lenN in Hlen'; lia).
+      rewrite app_nth2 by (rewrite Hlq'; apply le_n). rewrite Hlq', Nat.sub_diag. reflexivity. }
+    rewrite Hsum. cbn [bind]. unfold rebind_right. cbn [children]. eexists; split; [reflexivity|].
+    cbn [ReprProofs.Repr chunk_data]. exists c2. split; [reflexivity|]. rewrite E, ED.
+    rewrite <- (app_nil_r (concat cs)), (chunks_split cs [] Hcs ltac:(cbn; lia)), app_nil_r. exact Hc2.
+  - (* other elements stay in the chunk *)
+    apply N.eqb_neq in Er. rewrite andb_false_r.
+    assert (lastq <> []) as Hlqne by (intros ->; cbn in Hllq; pose proof Hs; nia).
+    rewrite (list_getter_g cd c _ ns q (RootN zero32) Hr ltac:(lia)).
+    assert (nth (N.to_nat q) ns (RootN zero32) = RootN (pad32 (lastq ++ ser e xl))) as ->.
+    { unfold ns. rewrite map_app. cbn [map]. unfold bytes in *. rewrite app_nth2 by (rewrite map_length; lia). rewrite map_length, <- Hlcs, Nat.sub_diag. reflexivity. }
+    cbn [bind Tree.root].
+    rewrite <- (N2Nat.id (lenN vs' mod epc)). rewrite (splice_clear (N.to_nat s) _ lastq (ser e xl) Hllq Hxll Hfit).
+    destruct (list_setter_g cd c (len_node (lenN vs' + 1)) ns q (RootN (pad32 lastq)) Hr ltac:(lia)) as (c1 & Hs1 & Hc1).
+    rewrite Hs1. cbn [bind]. unfold rebind_right. cbn [children]. eexists; split; [reflexivity|].
+    cbn [ReprProofs.Repr chunk_data]. exists c1. split; [reflexivity|]. rewrite E, ED.
+    rewrite (chunks_app_full H cs lastq Hcs) by lia. destruct lastq as [|b0 lq] eqn:Elq; [congruence|]. rewrite <- Elq in *.
+    unfold ns in Hc1. rewrite map_app in Hc1. cbn [map] in Hc1. unfold bytes in *. rewrite upd_app2 in Hc1 by (rewrite map_length; lia).
+    rewrite map_length, <- Hlcs, Nat.sub_diag in Hc1. cbn [upd] in Hc1. rewrite map_app. exact Hc1.
+Qed.
+
+
+(* ---- lists of ANY element type: assignment, append, pop; steps and histories ---- *)
+Lemma rl_len {A} (l : list A) : (length (removelast l) <= length l)%nat.
+Proof. induction l as [|a l IH]; [apply le_n|]. destruct l; [cbn; apply le_S, le_n|]. cbn [removelast length] in *. apply le_n_S. exact IH. Qed.
+Lemma rl_in {A} (x : A) l : In x (removelast l) -> In x l.
+Proof. induction l as [|a l IH]; [tauto|]. destruct l as [|b l]; [cbn; tauto|]. intros [->|Hin]; [now left|right; now apply IH]. Qed.
+
+Section AnyList.
+Variable e : ty.
+Variable limit : N.
+Notation t := (TList e limit).
+Hypothesis Hty : wf_ty t = true.
+
+Lemma any_limit : limit < 2 ^ 64.
+Proof. cbn [wf_ty] in Hty. apply andb_true_iff in Hty as [_ Hb]. now apply N.ltb_lt in Hb. Qed.
+
+Theorem list_set_any vs n i x m : wf t (VSeq vs) = true -> Repr t (VSeq vs) n -> (0 <= i < Z.of_N (lenN vs))%Z ->
+  wf e x = true -> Repr e x m ->
+  exists n', view_set H src t n i m = Ok n' /\ Repr t (VSeq (upd (Z.to_nat i) x vs)) n'.
+Proof.
+  intros Hwf Hr Hi Hx Hm. destruct (basic_size e) as [s|] eqn:Eb.
+  - exact (packed_list_set e limit s vs n i x m Hty Eb Hwf Hr Hi Hx Hm).
+  - cbn [wf] in Hwf. apply andb_true_iff in Hwf as [Hl _]. apply N.leb_le in Hl.
+    exact (list_set_v e limit Eb any_limit vs n i x m Hr Hl Hi Hm).
+Qed.
+Theorem list_append_any vs n x m : wf t (VSeq vs) = true -> Repr t (VSeq vs) n -> lenN vs < limit ->
+  wf e x = true -> Repr e x m ->
+  exists n', list_append H src t n m = Ok n' /\ Repr t (VSeq (vs ++ [x])) n'.
+Proof.
+  intros Hwf Hr Hl Hx Hm. destruct (basic_size e) as [s|] eqn:Eb.
+  - exact (packed_list_append e limit s vs n x m Hty Eb Hwf Hr Hl Hx Hm).
+  - exact (list_append_v e limit Eb any_limit vs n x m Hr Hl Hm).
+Qed.
+Theorem list_pop_any vs n : wf t (VSeq vs) = true -> Repr t (VSeq vs) n -> vs <> [] ->
+  exists n', list_pop H src t n = Ok n' /\ Repr t (VSeq (removelast vs)) n'.
+Proof.
+  intros Hwf Hr Hne. destruct (basic_size e) as [s|] eqn:Eb.
+  - exact (packed_list_pop e limit s vs n Hty Eb Hwf Hr Hne).
+  - cbn [wf] in Hwf. apply andb_true_iff in Hwf as [Hl _]. apply N.leb_le in Hl.
+    exact (list_pop_v e limit Eb any_limit vs n Hr Hl Hne).
+Qed.
+
+Theorem list_history_any : forall os vs n, Repr t (VSeq vs) n -> wf t (VSeq vs) = true -> vvalid_ops e limit vs os ->
+  exists n', fold_left (fun acc o => do m <- acc; vapply_impl e limit m o) os (Ok n) = Ok n' /\
+             Repr t (VSeq (fold_left vapply_spec os vs)) n' /\ wf t (VSeq (fold_left vapply_spec os vs)) = true.
+Proof.
+  induction os as [|o os IH]; intros vs n Hr Hwf Hv; cbn [fold_left]; [eauto|].
+  destruct Hv as [Hv1 Hv2]. pose proof Hwf as Hwf0. cbn [wf] in Hwf. apply andb_true_iff in Hwf as [Hl Hall]. apply N.leb_le in Hl.
+  destruct o as [i x m|x m|]; cbn [vvalid_op vapply_impl vapply_spec bind] in *.
+  - destruct Hv1 as (Hi & Hx & Hwx). destruct (list_set_any vs n i x m Hwf0 Hr Hi Hwx Hx) as (n1 & Hs & Hr1). rewrite Hs.
+    apply IH; [exact Hr1| |exact Hv2]. cbn [wf]. unfold lenN. rewrite upd_len. apply andb_true_iff. split; [apply N.leb_le; exact Hl|now apply forallb_upd].
+  - destruct Hv1 as (Hlt & Hx & Hwx). destruct (list_append_any vs n x m Hwf0 Hr Hlt Hwx Hx) as (n1 & Hs & Hr1). rewrite Hs.
+    apply IH; [exact Hr1| |exact Hv2]. cbn [wf]. rewrite forallb_app. cbn [forallb]. rewrite Hall, Hwx. cbn [andb].
+    rewrite andb_true_r. apply N.leb_le. rewrite lenN_app. unfold lenN at 2. cbn [length]. lia.
+  - destruct (list_pop_any vs n Hwf0 Hr Hv1) as (n1 & Hs & Hr1). rewrite Hs.
+    apply IH; [exact Hr1| |exact Hv2]. cbn [wf]. apply andb_true_iff. split.
+    + apply N.leb_le. unfold lenN in *. pose proof (rl_len vs). lia.
+    + apply forallb_forall. intros x Hx. rewrite forallb_forall in Hall. apply Hall. now apply rl_in in Hx.
+Qed.
+End AnyList.
+
 (* ---- what Repr buys: indistinguishable from a freshly constructed value ---- *)
 Theorem repr_fresh t v n : wf_ty t = true -> wf t v = true -> Repr t v n ->
   exists n0, mk t v = Ok n0 /\ root n = root n0 /\ root n = htr H t v /\
